@@ -22,4 +22,11 @@ def expectedOf (n : String) : Option (List SkOp) :=
   | some f => some f.2
   | none => none
 
+/-- the functions that run entirely under `mu` on behalf of a protocol function: the protocol model
+sees them through `Skel.quiet` (bookkeeping-only conditionals do not matter to it) -/
+def leafFns : List String := ["inotify.handleEvent", "inotify.register", "inotify.remove"]
+
+def viewOf (n : String) (ops : Option (List SkOp)) : Option (List SkOp) :=
+  if leafFns.contains n then ops.map Skel.quiet else ops
+
 end SkeletonTie
